@@ -42,12 +42,32 @@ func Decrypt(
 			return nil, err
 		}
 
-		return io.NopCloser(r.UnverifiedBody), nil
+		return io.NopCloser(&eofReader{r: r.UnverifiedBody}), nil
 	case config.NoneKey:
 		return io.NopCloser(src), nil
 	default:
 		return nil, config.ErrEncryptionFormatUnsupported
 	}
+}
+
+// eofReader keeps answering io.EOF once the wrapped reader has reached it. The OpenPGP body reader answers a read
+// after its end with an integrity error, and read-ahead decompressors (parallel bzip2) do read again after io.EOF
+type eofReader struct {
+	r   io.Reader
+	eof bool
+}
+
+func (e *eofReader) Read(p []byte) (int, error) {
+	if e.eof {
+		return 0, io.EOF
+	}
+
+	n, err := e.r.Read(p)
+	if err == io.EOF {
+		e.eof = true
+	}
+
+	return n, err
 }
 
 func DecryptHeader(
